@@ -1,6 +1,7 @@
 package sim
 
 import (
+	"context"
 	"errors"
 	"fmt"
 	"strings"
@@ -15,6 +16,8 @@ import (
 )
 
 // V1 drives aws-v1/client.
+var bg1 = context.Background()
+
 type V1 struct {
 	cl      *v1.Client
 	retain  bool
@@ -291,6 +294,12 @@ func (d *V1) Exec(cmd *Cmd) (o Outcome) {
 		if cmd.Native == "activate" {
 			d.cl.ActivateNativeInterpreter()
 		}
+		if cmd.Native == "reset" {
+			d.cl.SetInterpreter(interpreter.NewNativeInterpreter())
+		}
+		if cmd.Native == "debug" {
+			d.cl.ActivateDebug()
+		}
 		if cmd.Native == "updater-panic" {
 			d.cl.GetNativeInterpreter().AddUpdater(cmd.T, UpdText(cmd), func(item, _ map[string]*mtypes.Item) {
 				s := "partial"
@@ -382,7 +391,13 @@ func (d *V1) create(cmd *Cmd) (o Outcome) {
 			in.LocalSecondaryIndexes = append(in.LocalSecondaryIndexes, &dynamodb.LocalSecondaryIndex{IndexName: aws.String(ix.Name), KeySchema: keySchemaV1(ix.KeyAttrs()), Projection: proj})
 		}
 	}
-	out, err := d.cl.CreateTable(in)
+	out, err := func() (*dynamodb.CreateTableOutput, error) {
+		if cmd.ID%2 == 1 {
+			// the context variants of the SDK v1 interface, every other command
+			return d.cl.CreateTableWithContext(bg1, in)
+		}
+		return d.cl.CreateTable(in)
+	}()
 	d.classify(err, &o)
 	if err == nil {
 		o.Desc = descFromV1(out.TableDescription)
@@ -487,7 +502,13 @@ func (d *V1) put(cmd *Cmd) (o Outcome) {
 		ExpressionAttributeNames: p.names, ExpressionAttributeValues: p.values}
 	d.keepIn(cmd.ID, "Item", in.Item)
 	d.keepIn(cmd.ID, "Values", p.values)
-	out, err := d.cl.PutItem(in)
+	out, err := func() (*dynamodb.PutItemOutput, error) {
+		if cmd.ID%2 == 1 {
+			// the context variants of the SDK v1 interface, every other command
+			return d.cl.PutItemWithContext(bg1, in)
+		}
+		return d.cl.PutItem(in)
+	}()
 	d.classify(err, &o)
 	if err == nil && out != nil {
 		d.keepOut("out.Attributes", out.Attributes)
@@ -507,7 +528,13 @@ func (d *V1) get(cmd *Cmd) (o Outcome) {
 		}
 	}
 	d.keepIn(cmd.ID, "Key", in.Key)
-	out, err := d.cl.GetItem(in)
+	out, err := func() (*dynamodb.GetItemOutput, error) {
+		if cmd.ID%2 == 1 {
+			// the context variants of the SDK v1 interface, every other command
+			return d.cl.GetItemWithContext(bg1, in)
+		}
+		return d.cl.GetItem(in)
+	}()
 	d.classify(err, &o)
 	if err == nil {
 		o.Item = itemFromV1(out.Item)
@@ -522,7 +549,13 @@ func (d *V1) del(cmd *Cmd) (o Outcome) {
 		ExpressionAttributeNames: p.names, ExpressionAttributeValues: p.values, ReturnValues: aws.String("ALL_OLD")}
 	d.keepIn(cmd.ID, "Key", in.Key)
 	d.keepIn(cmd.ID, "Values", p.values)
-	out, err := d.cl.DeleteItem(in)
+	out, err := func() (*dynamodb.DeleteItemOutput, error) {
+		if cmd.ID%2 == 1 {
+			// the context variants of the SDK v1 interface, every other command
+			return d.cl.DeleteItemWithContext(bg1, in)
+		}
+		return d.cl.DeleteItem(in)
+	}()
 	d.classify(err, &o)
 	if err == nil {
 		o.Item = itemFromV1(out.Attributes)
@@ -540,7 +573,13 @@ func (d *V1) update(cmd *Cmd) (o Outcome) {
 	}
 	d.keepIn(cmd.ID, "Key", in.Key)
 	d.keepIn(cmd.ID, "Values", p.values)
-	out, err := d.cl.UpdateItem(in)
+	out, err := func() (*dynamodb.UpdateItemOutput, error) {
+		if cmd.ID%2 == 1 {
+			// the context variants of the SDK v1 interface, every other command
+			return d.cl.UpdateItemWithContext(bg1, in)
+		}
+		return d.cl.UpdateItem(in)
+	}()
 	d.classify(err, &o)
 	if err == nil {
 		o.Item = itemFromV1(out.Attributes)
@@ -572,7 +611,11 @@ func (d *V1) search(cmd, shape *Cmd, lek map[string]*dynamodb.AttributeValue) (o
 			in.ProjectionExpression = aws.String(strings.Join(shape.Proj, ", "))
 		}
 		var out *dynamodb.QueryOutput
-		out, err = d.cl.Query(in)
+		if cmd.ID%2 == 1 {
+			out, err = d.cl.QueryWithContext(bg1, in)
+		} else {
+			out, err = d.cl.Query(in)
+		}
 		if err == nil {
 			items, outLEK, count = out.Items, out.LastEvaluatedKey, aws.Int64Value(out.Count)
 		}
@@ -583,7 +626,11 @@ func (d *V1) search(cmd, shape *Cmd, lek map[string]*dynamodb.AttributeValue) (o
 			in.ProjectionExpression = aws.String(strings.Join(shape.Proj, ", "))
 		}
 		var out *dynamodb.ScanOutput
-		out, err = d.cl.Scan(in)
+		if cmd.ID%2 == 1 {
+			out, err = d.cl.ScanWithContext(bg1, in)
+		} else {
+			out, err = d.cl.Scan(in)
+		}
 		if err == nil {
 			items, outLEK, count = out.Items, out.LastEvaluatedKey, aws.Int64Value(out.Count)
 		}
@@ -632,7 +679,13 @@ func (d *V1) batchWrite(cmd *Cmd) (o Outcome) {
 		}
 		req[r.T] = append(req[r.T], w)
 	}
-	out, err := d.cl.BatchWriteItem(&dynamodb.BatchWriteItemInput{RequestItems: req})
+	bin := &dynamodb.BatchWriteItemInput{RequestItems: req}
+	out, err := func() (*dynamodb.BatchWriteItemOutput, error) {
+		if cmd.ID%2 == 1 {
+			return d.cl.BatchWriteItemWithContext(bg1, bin)
+		}
+		return d.cl.BatchWriteItem(bin)
+	}()
 	d.classify(err, &o)
 	if err == nil {
 		for _, t := range sortedKeys(out.UnprocessedItems) {
